@@ -703,14 +703,16 @@ theorem C07_describe_total (sel : Bool) : ∀ (m : M) (v : V), descr sel m v = n
     simp only [descr]
     split
     · rfl
-    · split
-      · rfl
-      · split
-        · rfl
-        · apply descrParts_none
-          apply zipWith_all_none
-          intro i x
-          exact getD_all_none _ (descrRow_none sel ms x) i
+    · rename_i xs _
+      have : ∀ ys : List V,
+          ys.foldr (fun x r => seqR (descrParts false (matchRow sel ms x) (descrRow sel ms x)) r) none = none := by
+        intro ys
+        induction ys with
+        | nil => rfl
+        | cons x ys ih =>
+          rw [List.foldr_cons, ih, descrParts_none _ _ _ (descrRow_none sel ms x)]
+          rfl
+      exact this xs
   | .structure attrs ms, v => by
     simp only [descr]
     exact descrParts_none _ _ _ (descrZip_none sel ms _)
